@@ -148,6 +148,8 @@ pub struct SrvCfg {
     /// C11: requests that must be yielded when sent after the server has consumed the malformed input
     pub must_yield_after: Vec<(usize, usize)>,
     pub closure_c11: bool,
+    /// C11: a request is yielded by the requests() call that consumes its last byte, never later
+    pub yield_promptly: bool,
 }
 
 impl SrvCfg {
@@ -174,6 +176,7 @@ impl SrvCfg {
             never_yield: vec![],
             must_yield_after: vec![],
             closure_c11: false,
+            yield_promptly: false,
         }
     }
     pub fn to_json(&self) -> Value {
@@ -188,7 +191,7 @@ impl SrvCfg {
             "max_depth": self.max_depth, "closure_all": self.closure_all, "closure_witness": self.closure_witness,
             "release_check": self.release_check, "flush_probe": self.flush_probe, "twin_without_kill": self.twin_without_kill,
             "respond_any": self.respond_any, "max_outstanding_for_respond": self.max_outstanding_for_respond,
-            "never_yield": self.never_yield, "must_yield_after": self.must_yield_after, "closure_c11": self.closure_c11,
+            "never_yield": self.never_yield, "must_yield_after": self.must_yield_after, "closure_c11": self.closure_c11, "yield_promptly": self.yield_promptly,
         })
     }
     pub fn from_json(v: &Value) -> SrvCfg {
@@ -239,6 +242,7 @@ impl SrvCfg {
             never_yield: pairs(&v["never_yield"]),
             must_yield_after: pairs(&v["must_yield_after"]),
             closure_c11: b("closure_c11"),
+            yield_promptly: b("yield_promptly"),
         }
     }
 }
@@ -284,6 +288,11 @@ struct Client {
     limit_at_accept: usize,
     yielded: usize,
     supplied: Vec<(usize, usize)>,
+    /// the application supplied a response after this client shut down its read side: the
+    /// server has (after fair completion) attempted a write that must have failed
+    answered_after_shut_rd: bool,
+    /// stream offset up to which the server had consumed this client's bytes before the current poll
+    consumed_before_poll: usize,
 }
 
 struct Outstanding {
@@ -431,6 +440,8 @@ impl<'a> World<'a> {
                 limit_at_accept: 0,
                 yielded: 0,
                 supplied: vec![],
+                answered_after_shut_rd: false,
+                consumed_before_poll: 0,
             });
         }
         let mut w = World {
@@ -692,6 +703,12 @@ impl<'a> World<'a> {
             self.note("Poll", json!({"skipped": "epoll descriptor not readable"}));
             return;
         }
+        for c in self.clients.iter_mut() {
+            if let Some(sfd) = c.server_fd {
+                let unread = fionread(sfd).max(0) as usize;
+                c.consumed_before_poll = c.sent.len().saturating_sub(unread);
+            }
+        }
         let before: BTreeSet<RawFd> = self.server_table().iter().map(|e| e.0).collect();
         let before_states: BTreeMap<RawFd, u8> = self.server_table().iter().map(|e| (e.0, e.1)).collect();
         let code = match order {
@@ -842,6 +859,21 @@ impl<'a> World<'a> {
     }
 
     fn check_yield(&mut self, c: usize, k: usize) {
+        if self.cfg.yield_promptly {
+            // where does request k end in what the client sent?
+            let sent = &self.clients[c].sent;
+            let needle = format!(" /c{}/r{} HTTP/1.", c, k).into_bytes();
+            if let Some(p) = sent.windows(needle.len()).position(|w| w == &needle[..]) {
+                let start = sent[..p].iter().rposition(|b| *b == b'\n').map(|i| i + 1).unwrap_or(0);
+                let evs = ss::parse_all(&sent[start..], usize::MAX >> 1, 1024);
+                if let Some((at, _)) = evs.iter().find(|(_, e)| matches!(e, ss::Event::Request(_))) {
+                    let end = start + at;
+                    if self.clients[c].accepted && self.clients[c].consumed_before_poll >= end {
+                        return self.fail("stale-request-yielded", format!("request /c{}/r{} ends at stream offset {} and the server had already consumed {} bytes of this client's input before this call: it was retained across an earlier call (which reported a parse error) and is yielded now", c, k, end, self.clients[c].consumed_before_poll));
+                    }
+                }
+            }
+        }
         if self.cfg.never_yield.contains(&(c, k)) {
             return self.fail("rejected-request-yielded", format!("request /c{}/r{} is malformed (it is answered with 400) but was yielded to the application", c, k));
         }
@@ -891,6 +923,9 @@ impl<'a> World<'a> {
         });
         let r = util::catch(|| self.server.as_mut().unwrap().respond(resp));
         self.clients[c].supplied.push((k, size));
+        if self.clients[c].shut_rd {
+            self.clients[c].answered_after_shut_rd = true;
+        }
         self.total_supplied += 1;
         self.log.push(format!("respond c{}r{} size {}", c, k, size));
         self.note(&format!("Respond(c{}r{}, body {} bytes)", c, k, size), json!({"result": format!("{:?}", r.as_ref().map(|x| x.as_ref().map(|_| ()).map_err(|e| format!("{:?}", e))))}));
@@ -1371,6 +1406,16 @@ impl<'a> World<'a> {
                 continue;
             }
             if c.shut_rd {
+                // The server cannot know that this client stopped reading until a write fails
+                // (and a write is only attempted when the socket is writable). If it does know
+                // - it marked the connection closed - and everything is answered, it must be gone.
+                let closed_by_server = c.server_fd.map(|fd| self.server_table().iter().any(|e| e.0 == fd && e.1 == 2)).unwrap_or(false);
+                if closed_by_server {
+                    who.push(format!("client {} shut RD, a write failed and the server marked it closed: must be gone", i));
+                    continue;
+                }
+            }
+            if c.shut_rd {
                 may += 1;
                 who.push(format!("client {} shut RD (either)", i));
                 continue;
@@ -1429,6 +1474,18 @@ impl<'a> World<'a> {
                 let d = format!("after flush_outgoing_writes client {} holds {} of the {} (small) responses supplied for it", i, n200, c.supplied.len());
                 return self.fail("flush-incomplete", d);
             }
+        }
+        // flushing must leave the server in a state from which polling still works: no spin,
+        // no lost wake-up, later input still served. Responses larger than the socket buffer
+        // are exempt (the statement only promises delivery of responses that fit; the
+        // implementation gives up on a connection whose socket would block).
+        let all_small = self.clients.iter().all(|c| c.supplied.iter().all(|(_, s)| *s < 2000)) && self.outstanding.is_empty();
+        if !all_small {
+            return;
+        }
+        self.closure_all();
+        if let Some((sig, d)) = self.violation.take() {
+            self.violation = Some((format!("after-flush:{}", sig), format!("after flush_outgoing_writes: {}", d)));
         }
     }
 }
